@@ -263,6 +263,17 @@ class AbstractConstraint:
         return object.__hash__(self)
 
 
+def _drop_repeated(values: Iterable[Value]) -> list[Value]:
+    """Keep the first occurrence of every value object (by identity)."""
+    seen = set()
+    out = []
+    for value in values:
+        if id(value) not in seen:
+            seen.add(id(value))
+            out.append(value)
+    return out
+
+
 @dataclass(frozen=True, eq=False)
 class Constraint(AbstractConstraint):
     """A constraint is a restriction on the value of a variable.
@@ -428,17 +439,42 @@ class Constraint(AbstractConstraint):
                 yield value
 
         elif self.constraint_type == ConstraintType.one_of:
-            for constraint in self.value:
-                yield from constraint.apply_to_value(value)
+            yield from self._apply_compound(value)
 
         elif self.constraint_type == ConstraintType.all_of:
-            vals = [value]
-            for constraint in self.value:
-                vals = list(constraint.apply_to_values(vals))
-            yield from vals
+            yield from self._apply_compound(value)
 
         else:
             assert False, f"unknown constraint type {self.constraint_type}"
+
+    def _apply_compound(self, value: Value) -> Sequence[Value]:
+        """apply_to_value for one_of and all_of constraints.
+
+        Nested one_of/all_of constraints share their members, and every member of
+        a one_of can yield the same value again, so the naive recursion is
+        exponential in the nesting depth. Results are computed once per
+        (constraint, value object) and repeated values are dropped.
+        """
+        cache = self.__dict__.get("_compound_cache")
+        if cache is None:
+            cache = {}
+            object.__setattr__(self, "_compound_cache", cache)
+        entry = cache.get(id(value))
+        if entry is not None and entry[0] is value:
+            return entry[1]
+        if self.constraint_type == ConstraintType.one_of:
+            vals = [
+                result
+                for constraint in self.value
+                for result in constraint.apply_to_value(value)
+            ]
+        else:
+            vals = [value]
+            for constraint in self.value:
+                vals = _drop_repeated(constraint.apply_to_values(vals))
+        result = tuple(_drop_repeated(vals))
+        cache[id(value)] = (value, result)
+        return result
 
     def __str__(self) -> str:
         sign = "+" if self.positive else "-"
@@ -512,6 +548,40 @@ class PredicateProvider(AbstractConstraint):
         return NULL_CONSTRAINT
 
 
+def _memoized_apply(
+    constraint: AbstractConstraint, build: Callable[[], Iterable["Constraint"]]
+) -> Sequence["Constraint"]:
+    """Compute the concrete constraints of a compound constraint once (the
+    constraints form a DAG; see _memoized_invert)."""
+    cached = constraint.__dict__.get("_applied")
+    if cached is None:
+        cached = tuple(build())
+        object.__setattr__(constraint, "_applied", cached)
+    return cached
+
+
+_CompoundT = TypeVar("_CompoundT", bound=AbstractConstraint)
+
+
+def _memoized_invert(
+    constraint: AbstractConstraint, build: Callable[[], _CompoundT]
+) -> _CompoundT:
+    """Invert a compound constraint once.
+
+    Compound constraints share subterms (the value of a variable carries the
+    constraint of the condition it came from, and that value is used again in
+    later conditions), so they form a DAG. Rebuilding the inverse on every call
+    walks the DAG as a tree, which is exponential in its depth.
+    """
+    cached = constraint.__dict__.get("_inverted")
+    if cached is None:
+        cached = build()
+        object.__setattr__(constraint, "_inverted", cached)
+        # The inverse of the inverse is the constraint we started from.
+        object.__setattr__(cached, "_inverted", constraint)
+    return cached
+
+
 @dataclass(frozen=True)
 class EquivalentConstraint(AbstractConstraint):
     """Represents multiple constraints that are either all true or all false."""
@@ -519,12 +589,20 @@ class EquivalentConstraint(AbstractConstraint):
     constraints: tuple[AbstractConstraint, ...]
 
     def apply(self) -> Iterable["Constraint"]:
+        return _memoized_apply(self, self._apply)
+
+    def _apply(self) -> Iterable["Constraint"]:
         for cons in self.constraints:
             yield from cons.apply()
 
     def invert(self) -> "EquivalentConstraint":
         # ~(A == B) -> ~A == ~B
-        return EquivalentConstraint(tuple(cons.invert() for cons in self.constraints))
+        return _memoized_invert(
+            self,
+            lambda: EquivalentConstraint(
+                tuple(cons.invert() for cons in self.constraints)
+            ),
+        )
 
     @classmethod
     def make(cls, constraints: Iterable[AbstractConstraint]) -> AbstractConstraint:
@@ -555,12 +633,18 @@ class AndConstraint(AbstractConstraint):
     constraints: tuple[AbstractConstraint, ...]
 
     def apply(self) -> Iterable["Constraint"]:
+        return _memoized_apply(self, self._apply)
+
+    def _apply(self) -> Iterable["Constraint"]:
         for cons in self.constraints:
             yield from cons.apply()
 
     def invert(self) -> "OrConstraint":
         # ~(A and B) -> ~A or ~B
-        return OrConstraint(tuple(cons.invert() for cons in self.constraints))
+        return _memoized_invert(
+            self,
+            lambda: OrConstraint(tuple(cons.invert() for cons in self.constraints)),
+        )
 
     @classmethod
     def make(cls, constraints: Iterable[AbstractConstraint]) -> AbstractConstraint:
@@ -604,6 +688,9 @@ class OrConstraint(AbstractConstraint):
     constraints: tuple[AbstractConstraint, ...]
 
     def apply(self) -> Iterable[Constraint]:
+        return _memoized_apply(self, self._apply)
+
+    def _apply(self) -> Iterable[Constraint]:
         grouped = [self._group_constraints(cons) for cons in self.constraints]
         left, *rest = grouped
         for varname, constraints in left.items():
@@ -642,7 +729,10 @@ class OrConstraint(AbstractConstraint):
 
     def invert(self) -> AndConstraint:
         # ~(A or B) -> ~A and ~B
-        return AndConstraint(tuple(cons.invert() for cons in self.constraints))
+        return _memoized_invert(
+            self,
+            lambda: AndConstraint(tuple(cons.invert() for cons in self.constraints)),
+        )
 
     @classmethod
     def make(cls, constraints: Iterable[AbstractConstraint]) -> AbstractConstraint:
